@@ -174,7 +174,7 @@ PROPS = {
     "C18": dict(
         lean_modules=["Liftbridge.Props.C18", "Liftbridge.Props.GoActivity"],
         gen_sources=["server/activity.go", "server/fsm.go", "server/server.go:Server.leadership", "server/config.go:parseAckPolicy", "server/protocol/internal.pb.go"],
-        runs=[dict(go_pkg="./server", test="TestVerifC18"), dict(go_pkg="./server", test="TestVerifC18WithAuthz")],
+        runs=[dict(go_pkg="./server", test="TestVerifC18"), dict(go_pkg="./server", test="TestVerifC18WithAuthz"), dict(go_pkg="./server", test="TestVerifC18Promotion")],
         level="proof",
         assumptions=[
             "hashicorp/raft: one totally ordered committed log, applied in order; entry k of the model has Raft index k; log truncation only removes a prefix (floor) and never beyond snapshot index + 1",
